@@ -68,4 +68,30 @@ theorem cp_seid_change_is_remembered (cfg : Cfg) (w : World) (a : Nat) (r : ModR
   unfold deleteSession
   simp only [hf, hr]
 
+/-- a Session Modification that is not answered "accepted" leaves the session store and the TEID allocator exactly as they were:
+nothing of a refused request is committed (the datapath may have been written: `sendAdd` precedes the removals) -/
+theorem refused_modification_commits_nothing (cfg : Cfg) (w : World) (a : Nat) (r : ModReq)
+    (hrej : (modify cfg w a r).reply.cause ≠ causeAccepted) :
+    (modify cfg w a r).world.conns = w.conns ∧ (modify cfg w a r).world.teid = w.teid := by
+  revert hrej
+  unfold modify
+  cases hfind : (w.conn a).sessions.find? (·.lseid = r.seid) with
+  | none => simp [hfind]
+  | some s0 =>
+    simp only [hfind]
+    cases r.cpFseid with
+    | none =>
+      dsimp only
+      repeat' split
+      all_goals first
+        | (intro _; exact ⟨rfl, rfl⟩)
+        | (intro h; exact absurd rfl h)
+    | some v =>
+      obtain ⟨cp, ip⟩ := v
+      dsimp only
+      repeat' split
+      all_goals first
+        | (intro _; exact ⟨rfl, rfl⟩)
+        | (intro h; exact absurd rfl h)
+
 end Agent
